@@ -13,7 +13,8 @@ fn file_all() -> ConfigFile {
         mode: Some(Mode::Hub), switch_timeout: Some(704), claims: Some(vec!["fclaim".into()]), auto_claim: Some(false), port_forwarding: Some(false),
         pid_file: Some("fpid".into()), stats_file: Some("fstats".into()),
         statsd: Some(ConfigFileStatsd { server: Some("fsd".into()), prefix: Some("fsp".into()) }),
-        user: Some("fuser".into()), group: Some("fgroup".into()), hook: Some("fhook".into()), hooks: Default::default(),
+        user: Some("fuser".into()), group: Some("fgroup".into()), hook: Some("fhook".into()),
+        hooks: [("peer_connected", "fconn"), ("peer_disconnected", "fdisc")].iter().map(|(k, v)| (k.to_string(), v.to_string())).collect(),
     }
 }
 fn args_all() -> Args {
@@ -26,6 +27,8 @@ fn args_all() -> Args {
         mode: Some(Mode::Switch), switch_timeout: Some(804), claims: vec!["aclaim".into()], no_auto_claim: true, no_port_forwarding: true, daemon: true,
         pid_file: Some("apid".into()), stats_file: Some("astats".into()), statsd_server: Some("asd".into()), statsd_prefix: Some("asp".into()),
         user: Some("auser".into()), group: Some("agroup".into()),
+        // per-event hooks `event:script` (one event also given in the file, one new), and the catch-all hook (no colon)
+        hook: vec!["peer_disconnected:adisc".into(), "device_setup:asetup".into(), "ahook".into()],
         ..Default::default()
     }
 }
@@ -78,6 +81,12 @@ fn sources_combine_as_documented() {
         chk("peers (accumulate)", c.peers == list(&["fpeer"], &["apeer"]));
         chk("claims (accumulate)", c.claims == list(&["fclaim"], &["aclaim"]));
         chk("crypto.trusted_keys (accumulate)", c.crypto.trusted_keys == list(&["ftk1", "ftk2"], &["atk"]));
+        // per-event hooks accumulate over the sources; for an event given in both the command line wins; the catch-all hook is a scalar
+        let mut hooks: std::collections::HashMap<String, String> = Default::default();
+        if f { hooks.insert(s("peer_connected"), s("fconn")); hooks.insert(s("peer_disconnected"), s("fdisc")); }
+        if a { hooks.insert(s("peer_disconnected"), s("adisc")); hooks.insert(s("device_setup"), s("asetup")); }
+        chk("hooks (per event: accumulate, command line wins for the same event)", c.hooks == hooks);
+        chk("hook (catch-all)", c.hook == pick(a, f, so("ahook"), so("fhook"), None));
         // round trip through the file form reproduces everything the file format can express
         let mut back = Config::default();
         let daemonize = c.daemonize;
